@@ -135,7 +135,7 @@ class C17(Prop):
     harness = "h_gencode.c"
     theorems = ["EaselModel.Props.C17." + t for t in (
         "tables_pinned", "table_ids", "no_initiator_stop", "read_write_roundtrip", "expand_is_iupac", "translation_spec", "translation_shared",
-        "initiator_spec", "initiator_settings", "window_split_invariant", "orf_stream_eq_spec")]
+        "initiator_spec", "initiator_settings", "window_split_invariant", "orf_stream_eq_spec", "orf_frame_declarative", "builtin_tables_ok")]
     claimed = True
     technique = ("Lean 4 proof: built-in tables regenerated from the tree = hand-pinned NCBI tables by `decide`; general theorems (any table, any "
                  "degeneracy matrix) that the triple loop computes the shared amino acid / all-initiators; ORF machine modelled and tied by exact "
@@ -151,8 +151,10 @@ class C17(Prop):
                   "codons (coordinates, residues, first residue M when initiators are required, minimum length, flush at the strand end). "
                   "The machine model is tied to the tree by exact differential run and monitored against an independent ORF finder in Python.")
     level_note = ("Trusted: Lean kernel + standard axioms; table dumper; hand model fidelity checked by the differential run (all 18^3 triplets x 18 tables "
-                  "x 3 settings every run). Not yet theorems: the one-frame finder = 'split at stops, drop leading non-initiators' (the finder is itself the "
-                  "specification used), global numbering/order of the emitted records (monitored), Read(Write t) = t (exercised on the real code).")
+                  "x 3 settings every run). The one-frame finder is proved equal to the declarative 'split the frame at stops, drop the codons before the first "
+                  "initiator, keep >= minlen' (orf_frame_declarative). Read(Write t) = t is a `decide` theorem over all 18 tables x 3 settings on the "
+                  "hand model of esl_gencode_Read/Write (fileparser line skipping + the five anchored regexps), tied by the differential run on "
+                  "valid and damaged NCBI texts. Not a theorem: global numbering orf1..n / interleaving order of the three frames (monitored).")
     diverge_is_violation = True
     trusted_base = ["table dumper translate/tables_gencode.py (#includes esl_gencode.c, prints esl_transl_tables[])",
                     "hand model of esl_gencode.c tied by exact differential run (h_gencode.c, ASan+UBSan)",
